@@ -9,7 +9,7 @@ about), renders the abstract file system and sink state and compares field by fi
   `next=<_next_rotation_time|-> open=<_open_file_timestamp> fsz=<_file_size> dq=<_created_files back→front> | <listing>`
 
 `MISMATCH case=… line=… fields=a,b : …` names the fields that differ, so that each property's check can look at the
-observations that concern it. `driver rot trace <advancesFromSchedule 0|1> <minLimit>`.
+observations that concern it. `driver rot trace <advancesFromSchedule 0|1> <minLimit> <deletesAllExcess 0|1>`.
 -/
 namespace Drv.Rot
 open _root_.Rot
@@ -95,10 +95,10 @@ def plantName : List String → Option Name
   | ["X", k] => some (.foreign (Drv.nat! k))
   | _ => none
 
-def runTrace (adv : Bool) (minLimit : Nat) : IO UInt32 := do
+def runTrace (adv : Bool) (minLimit : Nat) (delAllExcess : Bool) : IO UInt32 := do
   let stdin ← IO.getStdin
   let lines ← Drv.readLines stdin
-  let P : Params := { advancesFromSchedule := adv }
+  let P : Params := { advancesFromSchedule := adv, deletesAllExcess := delAllExcess }
   let mut c : Ctx := {}
   let mut have_ := false
   let mut lineNo := 0
@@ -209,9 +209,9 @@ def runTrace (adv : Bool) (minLimit : Nat) : IO UInt32 := do
   IO.println s!"DONE traces={traces} skipped_dst={skipped} lines={total} mismatches={mism} problems={problems}"
   return (if mism + problems == 0 then 0 else 1)
 
-/-- `driver rot trace <adv> <minLimit>` -/
+/-- `driver rot trace <adv> <minLimit> <deletesAllExcess>` -/
 def main : List String → IO UInt32
-  | ["trace", adv, minLimit] => runTrace (adv == "1") (Drv.nat! minLimit)
-  | _ => do IO.println "usage: driver rot trace <advancesFromSchedule 0|1> <minLimit>"; return 2
+  | ["trace", adv, minLimit, del] => runTrace (adv == "1") (Drv.nat! minLimit) (del == "1")
+  | _ => do IO.println "usage: driver rot trace <advancesFromSchedule 0|1> <minLimit> <deletesAllExcess 0|1>"; return 2
 
 end Drv.Rot
